@@ -146,8 +146,13 @@ impl OptimisingLineFormatter {
     /// Lines for which no solution was found keep the line breaks of the input; those are
     /// limited to a single blank line here, like everywhere else.
     fn remove_spaces_at_line_starts(formatted_tokens: &mut FormattedTokens<'_>) {
+        let first_is_eof = formatted_tokens.get_token_type_for_index(0) == Some(TT::Eof);
         for token_index in 0..formatted_tokens.len() {
             if let Some(data) = formatted_tokens.get_formatting_data_mut(token_index) {
+                if token_index == 0 && !first_is_eof {
+                    // nothing comes before the first token of the file, solution or not
+                    data.newlines_before = 0;
+                }
                 if data.newlines_before > 0 {
                     data.spaces_before = 0;
                     data.newlines_before = data.newlines_before.min(2);
